@@ -74,6 +74,7 @@ namespace {
 int64_t g_pct_low = -1;
 void (*g_fatal_hook)(const char *) = nullptr;
 int g_inflight = 0;
+uint64_t g_last_progress = 0;   // step count when an API call last began or returned
 Th *g_last_created = nullptr;  // set by the pthread_create wrapper for its caller (baton held)
 
 uint64_t rnd() {
@@ -231,6 +232,11 @@ void yield_here() {
     if (g_cfg.step_limit && self->call_steps > g_cfg.step_limit)
       fatal(EXIT_STEPLIMIT, "STEPLIMIT: a call exceeded its scheduler step bound");
   }
+  // global form of the same bound: calls are in flight, yet none has begun or returned for step_limit steps -- the
+  // steps were all taken by other threads (a background thread that reschedules itself for ever starves every caller
+  // without any single caller accumulating steps of its own)
+  if (g_cfg.step_limit && g_inflight > 0 && g_stats.steps - g_last_progress > g_cfg.step_limit)
+    fatal(EXIT_STEPLIMIT, "STEPLIMIT: no API call began or returned within the scheduler step bound while calls are in flight");
   maybe_spurious();
   pick_and_switch();
 }
@@ -319,6 +325,7 @@ void sched_begin(const SchedConfig &cfg) {
   g_mutexes.clear();
   g_conds.clear();
   g_inflight = 0;
+  g_last_progress = 0;
   g_rng = cfg.seed * 0x9E3779B97F4A7C15ULL + 0x1234567ULL;
   if (g_rng == 0) g_rng = 1;
   for (int i = 0; i < 4; i++) rnd();
@@ -371,9 +378,13 @@ void sched_quiesce() {
   if (!managed()) return;
   Th *self = t_self;
   std::vector<Th *> run;
+  uint64_t spins = 0;
   for (;;) {
     runnable_list(run, self);
     if (run.empty()) break;
+    // the other threads must come to rest: background work that reschedules itself for ever is a stuck system
+    if (g_cfg.step_limit && ++spins > g_cfg.step_limit)
+      fatal(EXIT_STEPLIMIT, "STEPLIMIT: background work did not settle within the scheduler step bound");
     g_stats.steps++;
     Th *next = choose(run, self, true);
     switch_to(next);
@@ -391,6 +402,7 @@ void sched_call_begin() {
   if (!managed()) return;
   t_self->in_call = true;
   t_self->call_steps = 0;
+  g_last_progress = g_stats.steps;
   g_inflight++;
   if (g_inflight > g_stats.max_inflight) g_stats.max_inflight = g_inflight;
 }
@@ -398,6 +410,7 @@ void sched_call_begin() {
 void sched_call_end() {
   if (!managed()) return;
   t_self->in_call = false;
+  g_last_progress = g_stats.steps;
   g_inflight--;
 }
 
